@@ -900,9 +900,37 @@ func ruleLPPipe(r *Run) {
 						okLeaves = false
 					}
 				}
+				hasPrev := false
+				for _, lv := range leaves {
+					if il := innerLine(call); il != nil && lv == il {
+						hasPrev = true
+					}
+				}
 				if !okLeaves || len(leaves) == 0 {
 					good = false
 					o.Fail(r.pos(call.Pos()), "the stage is fed %s, not the previous stage's line", describe(la, 0))
+				} else if !hasPrev {
+					good = false
+					o.Fail(r.pos(call.Pos()), "every stage is fed %s: the line a stage returns never reaches the next stage", describe(la, 0))
+				}
+				// after the last stage: the line it returned (the incoming line when there is no stage), kept
+				for _, ret := range returnsOf(fn) {
+					if len(ret.Results) != 2 || !(loop.Done == ret.Block() || loop.Done.Dominates(ret.Block())) {
+						continue
+					}
+					rl := phiLeaves(unspill(ret.Results[0]))
+					okRet, prevRet := len(rl) > 0, false
+					for _, lv := range rl {
+						if il := innerLine(call); il != nil && lv == il {
+							prevRet = true
+						} else if lv != ssa.Value(fn.Params[2]) {
+							okRet = false
+						}
+					}
+					if !okRet || !prevRet {
+						good = false
+						o.Fail(r.pos(ret.Pos()), "after the last stage the pipeline returns %s, not the last stage's line", describe(ret.Results[0], 0))
+					}
 				}
 				// early exits only under keep==false
 				for _, ex := range loop.earlyExits() {
@@ -910,6 +938,33 @@ func ruleLPPipe(r *Run) {
 					if !(k != nil && factHoldsOnEdge(ex[0], ex[1], k, false)) {
 						good = false
 						o.Fail(r.pos(termPos(ex[0])), "the loop is left early on a path where the stage kept the record")
+						continue
+					}
+					// and that path reports the drop: it runs straight to a return whose keep is false
+					prev, cur := ex[0], ex[1]
+					for n := 0; n < 8; n++ {
+						if _, isJ := cur.Instrs[len(cur.Instrs)-1].(*ssa.Jump); !isJ {
+							break
+						}
+						prev, cur = cur, cur.Succs[0]
+					}
+					ret, isRet := cur.Instrs[len(cur.Instrs)-1].(*ssa.Return)
+					if !isRet || len(ret.Results) != 2 {
+						good = false
+						o.Fail(r.pos(termPos(ex[0])), "after a stage dropped the record the function does not return directly")
+						continue
+					}
+					kv := unspill(ret.Results[1])
+					if ph, ok := kv.(*ssa.Phi); ok && ph.Block() == cur {
+						for i, pb := range cur.Preds {
+							if pb == prev {
+								kv = ph.Edges[i]
+							}
+						}
+					}
+					if !isConstBool(kv, false) && kv != k {
+						good = false
+						o.Fail(r.pos(ret.Pos()), "after a stage dropped the record the pipeline reports keep=%s, not false", describe(kv, 0))
 					}
 				}
 			}
@@ -952,6 +1007,31 @@ func ruleLPPipe(r *Run) {
 					}
 					if bi, ok := c.Call.Value.(*ssa.Builtin); ok && bi.Name() == "append" {
 						nAppend++
+					}
+				}
+				// indexed fill: procs[i] = p with the loop's index, into a slice as long as the stages
+				for _, in := range b.Instrs {
+					st, ok := in.(*ssa.Store)
+					if !ok {
+						continue
+					}
+					ia, ok := st.Addr.(*ssa.IndexAddr)
+					if !ok || ia.Index != loop.Index || ia.X == loop.X {
+						continue
+					}
+					if _, isProc := st.Val.Type().Underlying().(*types.Interface); !isProc {
+						continue
+					}
+					nAppend++
+					if c, idx, ok := extractOf(st.Val); !ok || idx != 0 || !callIs(c, modPath+"/"+enginePkg, "buildStage") {
+						good = false
+						o.Fail(r.pos(st.Pos()), "the processor stored for a stage is %s, not the one built from it", describe(st.Val, 0))
+					}
+					if ms, ok := ia.X.(*ssa.MakeSlice); ok {
+						if lc, ok := ms.Len.(*ssa.Call); !ok || len(lc.Call.Args) != 1 || lc.Call.Args[0] != loop.X {
+							good = false
+							o.Fail(r.pos(ms.Pos()), "the processors are filled by index into a slice whose length is %s, not len(stages)", describe(ms.Len, 0))
+						}
 					}
 				}
 			}
